@@ -1,0 +1,13 @@
+//go:build verif
+
+package codabar
+
+// VerifEncodingTable exposes encodingTable for the /verif translator:
+// rune -> module pattern (true = bar).
+func VerifEncodingTable() map[rune][]bool {
+	res := make(map[rune][]bool, len(encodingTable))
+	for r, p := range encodingTable {
+		res[r] = append([]bool(nil), p...)
+	}
+	return res
+}
